@@ -3,7 +3,7 @@ import CasbinV.Props.C01
 /-!
 # C07 — priority models keep rules in priority order and the best-priority match decides
 
-Domain: priorities are non-empty ASCII-digit strings (where `str.isdigit`, `int` and `Nat` agree); see DESIGN C07.
+Domain: priorities are decimal integers - ASCII digits with an optional leading `-` (where `int` and `Int` agree); see DESIGN C07.
 -/
 namespace Casbin.Policy.C07
 open Casbin.Policy Casbin.Policy.C06
@@ -12,19 +12,19 @@ open Casbin.Policy Casbin.Policy.C06
 def AllNumeric (pi : Nat) (l : List Rule) : Prop := ∀ r ∈ l, ∃ p, prioOf pi r = some p
 
 /-- numeric key with a default for the (excluded) non-numeric case, only used under `AllNumeric` -/
-def key (pi : Nat) (r : Rule) : Nat := (prioOf pi r).getD 0
+def key (pi : Nat) (r : Rule) : Int := (prioOf pi r).getD 0
 
 /-- ascending numeric priority -/
 def Sorted (pi : Nat) (l : List Rule) : Prop := l.Pairwise (fun a b => key pi a ≤ key pi b)
 
-theorem key_of_some {pi : Nat} {r : Rule} {p : Nat} (h : prioOf pi r = some p) : key pi r = p := by
+theorem key_of_some {pi : Nat} {r : Rule} {p : Int} (h : prioOf pi r = some p) : key pi r = p := by
   simp [key, h]
 
 /-! ## single add: the bubble loop -/
 
 /-- on a descending reversed prefix the bubble loop puts the new rule in front of exactly the rules with a
     smaller-or-equal priority (i.e. *after* them in the real order) -/
-theorem bubbleRev_eq (pi p : Nat) (r : Rule) (rev : List Rule) (hn : AllNumeric pi rev)
+theorem bubbleRev_eq (pi : Nat) (p : Int) (r : Rule) (rev : List Rule) (hn : AllNumeric pi rev)
     (hs : rev.Pairwise (fun a b => key pi b ≤ key pi a)) :
     bubbleRev pi p r rev = rev.filter (fun x => decide (key pi x > p)) ++ r :: rev.filter (fun x => decide (key pi x ≤ p)) := by
   induction rev with
@@ -40,7 +40,7 @@ theorem bubbleRev_eq (pi p : Nat) (r : Rule) (rev : List Rule) (hn : AllNumeric 
     by_cases hgt : px > p
     · simp only [hgt, ↓reduceIte]
       rw [ih hn' hs']
-      simp [List.filter, hk, hgt, Nat.not_le.mpr hgt]
+      simp [List.filter, hk, hgt, Int.not_le.mpr hgt]
     · simp only [hgt, ↓reduceIte]
       -- everything behind x is ≤ x ≤ p, so nothing is filtered out on the left
       have hall : ∀ y ∈ x :: xs, key pi y ≤ p := by
@@ -56,7 +56,7 @@ theorem bubbleRev_eq (pi p : Nat) (r : Rule) (rev : List Rule) (hn : AllNumeric 
 
 /-- **Stable ordered insertion.** Adding a rule to a sorted policy puts it after every rule of smaller or equal
     priority and before every rule of greater priority; all other rules keep their relative order. -/
-theorem insertByPriority_eq (pi : Nat) (l : List Rule) (r : Rule) (p : Nat) (hp : prioOf pi r = some p)
+theorem insertByPriority_eq (pi : Nat) (l : List Rule) (r : Rule) (p : Int) (hp : prioOf pi r = some p)
     (hn : AllNumeric pi l) (hs : Sorted pi l) :
     insertByPriority pi l r =
       l.filter (fun x => decide (key pi x ≤ p)) ++ r :: l.filter (fun x => decide (key pi x > p)) := by
@@ -68,7 +68,7 @@ theorem insertByPriority_eq (pi : Nat) (l : List Rule) (r : Rule) (p : Nat) (hp 
   rw [bubbleRev_eq pi p r l.reverse hn' hs']
   simp [List.filter_reverse]
 
-theorem sorted_filter_append (pi p : Nat) (l : List Rule) (r : Rule) (hr : key pi r = p) (hs : Sorted pi l) :
+theorem sorted_filter_append (pi : Nat) (p : Int) (l : List Rule) (r : Rule) (hr : key pi r = p) (hs : Sorted pi l) :
     Sorted pi (l.filter (fun x => decide (key pi x ≤ p)) ++ r :: l.filter (fun x => decide (key pi x > p))) := by
   unfold Sorted at *
   rw [List.pairwise_append]
@@ -87,7 +87,7 @@ theorem sorted_filter_append (pi p : Nat) (l : List Rule) (r : Rule) (hr : key p
       simp at h2; omega
 
 /-- single add keeps the policy sorted -/
-theorem add_keeps_sorted (pi : Nat) (l : List Rule) (r : Rule) (p : Nat) (hp : prioOf pi r = some p)
+theorem add_keeps_sorted (pi : Nat) (l : List Rule) (r : Rule) (p : Int) (hp : prioOf pi r = some p)
     (hn : AllNumeric pi l) (hs : Sorted pi l) : Sorted pi (add (some pi) l r).1 := by
   unfold add
   split
@@ -96,7 +96,7 @@ theorem add_keeps_sorted (pi : Nat) (l : List Rule) (r : Rule) (p : Nat) (hp : p
     rw [insertByPriority_eq pi l r p hp hn hs]
     exact sorted_filter_append pi p l r (key_of_some hp) hs
 
-theorem add_keeps_numeric (pi : Nat) (l : List Rule) (r : Rule) (p : Nat) (hp : prioOf pi r = some p)
+theorem add_keeps_numeric (pi : Nat) (l : List Rule) (r : Rule) (p : Int) (hp : prioOf pi r = some p)
     (hn : AllNumeric pi l) : AllNumeric pi (add (some pi) l r).1 := by
   intro x hx
   rcases (add_mem (some pi) l r x).mp hx with h | rfl
@@ -155,7 +155,7 @@ theorem insertSorted_perm (pi : Nat) (r : Rule) (l : List Rule) : (insertSorted 
       · exact List.Perm.refl _
     · exact (List.Perm.cons x ih).trans (List.Perm.swap r x xs)
 
-theorem insertSorted_eq (pi : Nat) (r : Rule) (p : Nat) (hp : prioOf pi r = some p) (l : List Rule)
+theorem insertSorted_eq (pi : Nat) (r : Rule) (p : Int) (hp : prioOf pi r = some p) (l : List Rule)
     (hn : AllNumeric pi l) (hs : Sorted pi l) :
     insertSorted pi r l =
       l.filter (fun x => decide (key pi x ≤ p)) ++ r :: l.filter (fun x => decide (key pi x > p)) := by
@@ -172,7 +172,7 @@ theorem insertSorted_eq (pi : Nat) (r : Rule) (p : Nat) (hp : prioOf pi r = some
     by_cases hc : px ≤ p
     · simp only [hc, ↓reduceIte]
       rw [ih hn' hs']
-      simp [List.filter, hk, hc, Nat.not_lt.mpr hc]
+      simp [List.filter, hk, hc, Int.not_lt.mpr hc]
     · simp only [hc, ↓reduceIte]
       have hall : ∀ y ∈ x :: xs, key pi y > p := by
         intro y hy
@@ -213,7 +213,7 @@ theorem load_sorted (pi : Nat) (l : List Rule) (hn : AllNumeric pi l) :
     exact (List.Perm.append_right rs hperm).trans List.perm_middle.symm
 
 /-- … and the sort is stable: rules of equal priority stay in arrival order -/
-theorem load_stable (pi : Nat) (l : List Rule) (hn : AllNumeric pi l) (q : Nat) :
+theorem load_stable (pi : Nat) (l : List Rule) (hn : AllNumeric pi l) (q : Int) :
     (sortByPriority pi l).filter (fun x => key pi x == q) = l.filter (fun x => key pi x == q) := by
   unfold sortByPriority
   suffices h : ∀ (acc : List Rule), AllNumeric pi acc → Sorted pi acc →
@@ -279,7 +279,7 @@ theorem first_match_is_best (pi : Nat) (l : List Rule) (hs : Sorted pi l) (f : R
     split at hf
     · cases hf
       rcases List.mem_cons.mp hx with rfl | hx'
-      · exact Nat.le_refl _
+      · exact Int.le_refl _
       · exact hle x hx'
     · rename_i hfa
       rcases List.mem_cons.mp hx with rfl | hx'
@@ -332,6 +332,12 @@ theorem sorted_invariant (pi : Nat) (ops : List Op) (l : List Rule) (hops : ∀ 
 
 /-! ## Non-vacuity -/
 
+-- negative priorities are numeric priorities: `int` reads them, the (repaired) load sorts on `int` like the ordered insertion
+example : prioOfString "-10" = some (-10) := by decide
+example : prioOfString "-" = none ∧ prioOfString "" = none ∧ prioOfString "--1" = none ∧ prioOfString "1-" = none := by decide
+example : sortByPriority 0 [["10", "a"], ["-1", "b"], ["1", "c"], ["-10", "d"]] =
+    [["-10", "d"], ["-1", "b"], ["1", "c"], ["10", "a"]] := by decide
+example : (add (some 0) [["-10", "d"], ["1", "c"]] ["-1", "b"]).1 = [["-10", "d"], ["-1", "b"], ["1", "c"]] := by decide
 example : prioOf 0 ["10", "alice"] = some 10 := by decide
 example : sortByPriority 0 [["10", "a"], ["1", "b"], ["10", "c"], ["2", "d"]] =
     [["1", "b"], ["2", "d"], ["10", "a"], ["10", "c"]] := by decide
